@@ -333,15 +333,50 @@ func (c *Ctx) Check(t string) Result { return c.feasible(t) }
 // CheckModel asks whether pc ∧ t is satisfiable and, if so, returns values
 // for the requested terms.
 func (c *Ctx) CheckModel(t string, terms []string) (Result, map[string]string) {
+	// Prefer a model in which identifier-coded atoms take values outside the
+	// range of literal codes: a small value may be (or later become) the code of
+	// some literal the path never compared the atom with, and the atom would
+	// then be spelled like that literal in the native replay although nothing on
+	// the path says so. Only when the path forces an atom to equal a literal is
+	// the unrestricted query used.
+	var generic []string
+	for _, v := range terms {
+		if len(v) > 3 && v[0] == 'c' && v[2] == '_' && v[1] != 'T' {
+			generic = append(generic, fmt.Sprintf("(>= %s 1048576)", v))
+		}
+	}
+	if len(generic) > 0 {
+		c.S.Push()
+		c.S.Assert(t)
+		c.S.Assert(andTerm(generic...))
+		if c.S.Check() == Sat {
+			m := c.S.GetValues(withLengths(terms))
+			c.S.Pop()
+			return Sat, m
+		}
+		c.S.Pop()
+	}
 	c.S.Push()
 	c.S.Assert(t)
 	r := c.S.Check()
 	var m map[string]string
 	if r == Sat {
-		m = c.S.GetValues(terms)
+		m = c.S.GetValues(withLengths(terms))
 	}
 	c.S.Pop()
 	return r, m
+}
+
+// withLengths adds, for identifier-coded atoms, their length (which the code
+// under test can observe through len()) to the terms of a model query.
+func withLengths(terms []string) []string {
+	all := append([]string{}, terms...)
+	for _, t := range terms {
+		if len(t) > 3 && t[0] == 'c' && t[2] == '_' && t[1] != 'T' {
+			all = append(all, "(clen "+t+")")
+		}
+	}
+	return all
 }
 
 // Valid reports whether pc ⇒ t holds: Unsat means valid, Sat means a
@@ -450,12 +485,22 @@ func (c *Ctx) Choose(n int, what string) int {
 
 // Concretize resolves a symbolic integer to a concrete value in [lo,hi] by
 // case split; values outside the range end the path as beyond the bound.
+// ConcretizeLimit bounds the case split of Concretize.
+var ConcretizeLimit = 48
+
 func (c *Ctx) Concretize(v value, lo, hi int64) int64 {
 	s, ok := v.(SymInt)
 	if !ok {
 		return asInt64(v)
 	}
+	// case split over the values, smallest first; a quantity with more than
+	// ConcretizeLimit candidate values is cut (and counted as beyond the bound)
+	// rather than enumerated: each candidate costs solver queries and a path
+	limit := int64(ConcretizeLimit)
 	for k := lo; k <= hi; k++ {
+		if k-lo >= limit {
+			panic(BeyondBound{fmt.Sprintf("integer %s has more than %d candidate values", s.T, limit)})
+		}
 		if c.Decide(fmt.Sprintf("(= %s %s)", s.T, intLit(k))) {
 			return k
 		}
